@@ -131,6 +131,7 @@ def build(spec, hooks=True):
     fac = SI.FACT['Torque'][lu]
     Torque = G_.un.Torque
     log = b.load_log
+    units_cycle = load.get('units_cycle')
 
     b.max_calls = None
 
@@ -141,6 +142,9 @@ def build(spec, hooks=True):
             # online monitor at the load hook: a run that computes far more instants than its duration allows is stopped here
             # (otherwise a runaway time loop would only ever show up as a watchdog timeout, i.e. inconclusive)
             raise RunawayRun(f'more than {b.max_calls} load evaluations: the run computes instants far beyond the requested simulation time')
+        if units_cycle:
+            u_ = units_cycle[len(b.pt.time) % len(units_cycle)]    # a load function whose branches return different torque units (keyed by the instant, so that a rerun sees the same units)
+            return Torque(load_value(load, t, p, w) / SI.FACT['Torque'][u_], u_)
         return Torque(load_value(load, t, p, w) / fac, lu)
     b.last.external_torque = external_torque
     b.pt = G_.Powertrain(motor=b.motor)
@@ -393,5 +397,22 @@ def run_schedule(b, on_capture=None):
             apply_ic(b, op.get('units'))
         elif o == 'newsolver':
             b.solver = g().Solver(powertrain=b.pt)
+        elif o == 'setpwm':
+            b.motor.pwm = op['value']              # the user changes the duty cycle between two runs
+        elif o == 'export':
+            # export / snapshot in the middle of a schedule (they must not disturb what follows); failures are recorded
+            import os
+            import shutil
+            import tempfile
+            d = tempfile.mkdtemp(prefix='vf-midexp-', dir=os.environ.get('VERIF_SCRATCH', '/var/tmp'))
+            try:
+                try:
+                    b.pt.export_time_variables(folder_path=d)
+                    if len(b.pt.time) >= 2:
+                        b.pt.snapshot(target_time=b.pt.time[1], print_data=False)
+                except Exception as ex:
+                    b.mid_schedule_failures = getattr(b, 'mid_schedule_failures', []) + [(type(ex).__name__, str(ex)[:200])]
+            finally:
+                shutil.rmtree(d, ignore_errors=True)
     b.runs = runs
     return runs
